@@ -35,7 +35,8 @@ func elems(vals []string) []string {
 
 func chains(x *explore.X, own string, tag string) (lines []string, hasOwn bool, desc string) {
 	other := []string{"1.1 other.example", "1.0 fred", "1.1 forwarder-00000000000000000000", "1.1 " + strings.Split(tag, "-")[0], "1.1 p.example (Apache/1.1)"}
-	ownVariants := []string{own, own + " (comment)", "1.0 " + tag, "HTTP/1.1 " + tag, "2.0 " + tag}
+	// (RWS between the parts of an element is one or more SP / HTAB; a later hop may have re-spelt the chain)
+	ownVariants := []string{own, own + " (comment)", "1.0 " + tag, "HTTP/1.1 " + tag, "2.0 " + tag, "1.1\t" + tag, "1.1  " + tag, own + "\t(comment)"}
 	n := x.Choose("chain-length", 4) // 0..3 elements
 	ownPos := -1
 	if n > 0 {
